@@ -302,3 +302,13 @@ func TestFailingCandidates(t *testing.T) {
 		kit.Rec.Case(desc, faulty > 0, "started-with-faulty-candidates-around")
 	})
 }
+
+// TestLazyAfterOtherContainer: lazy components are populated after ANOTHER container of this process has started
+// (same types, partly the same names): they are wired from their own container, completely.
+func TestLazyAfterOtherContainer(t *testing.T) {
+	kit.Rec.Rule(rule)
+	rapid.Check(t, func(t *rapid.T) {
+		desc, labels, nt := graph.LazyAfterOther(t, "C06", false)
+		kit.Rec.Case(desc, nt, labels...)
+	})
+}
